@@ -17,16 +17,16 @@ SHARED = {
     "C09": [("C09.R12", "more", "recompiled_function_keeps_its_cells", "a re-compiled method keeps its free variables and cells, __class__ included (re-compiler executed abstractly)"), ("C09.R13", "more", "recompiled_function_keeps_the_rest", "a re-compiled method keeps globals, defaults, annotations and name; the names given to the rewriter are bound (re-compiler executed abstractly)"), ],
     "C08": [("C08.R10", "more", "recompiled_function_keeps_its_cells", "a re-compiled method keeps its free variables and cells, __class__ included (re-compiler executed abstractly)"), ("C08.R11", "more", "recompiled_function_keeps_the_rest", "a re-compiled method keeps globals, defaults, annotations and name; the names given to the rewriter are bound (re-compiler executed abstractly)"), ("C08.R7", "c08", "r7_recurse_call_shapes", "every recurse call shape is handled or left alone"), ("C08.R8", "c09", "r7_own_code_object", "the recompiled code object is the method's own")],
     "C10": [("C10.R12", "more", "inlined_constants_are_literals", "constants written into generated code are literals for the value (interpreted)"), ("C10.R10", "c11", "r4_connective_is_quantifier", "emitted union checks are bracketed, connectives are quantifiers"), ("C10.R11", "c12", "r7_every_pair_compared", "every pair of applicable types is compared"), ("C10.R8", "c05", "r1_derived_tables_flushed", "no dispatcher outlives the registration that made it"), ("C10.R9", "c04", "r1_store_key_is_lookup_key", "stores are filed under the key looked up")],
-    "C11": [("C11.R9", "more", "value_check_memos_are_keyed_on_what_they_read", "memos in per-call value checks are keyed on everything they read"), ("C11.R11", "more", "inlined_constants_are_literals", "constants written into generated code are literals for the value (interpreted)"), ("C11.R10", "more", "literal_bound_covers_every_value", "a Literal's bound covers the types of all its values (interpreted)"), ("C11.R8", "c10", "r2", "a rank with any dependent member is wrapped; keyword entries count"), ("C11.R9", "more", "hash_reads_what_eq_compares", "equality of value types covers bound and values")],
+    "C11": [("C11.R12", "more", "serial_counters_are_never_reset", "serial-number counters are never reset"), ("C11.R13", "more", "value_check_memos_are_keyed_on_what_they_read", "memos in per-call value checks are keyed on everything they read"), ("C11.R11", "more", "inlined_constants_are_literals", "constants written into generated code are literals for the value (interpreted)"), ("C11.R10", "more", "literal_bound_covers_every_value", "a Literal's bound covers the types of all its values (interpreted)"), ("C11.R8", "c10", "r2", "a rank with any dependent member is wrapped; keyword entries count"), ("C11.R9", "more", "hash_reads_what_eq_compares", "equality of value types covers bound and values")],
     "C12": [("C12.R11", "more", "order_function_protocol", "the order function's hook protocol and generic-argument merge (interpreted)"), ("C12.R12", "more", "combinators_keep_their_members", "Union / Intersection keep their members as given"), ("C12.R10", "c15", "r4_commutative_combinators", "commutative combinators compare without order")],
     "C13": [("C13.R15", "more", "equality_tells_lookalikes_apart", "type equality tells look-alike constituents apart (interpreted)"), ("C13.R14", "more", "resolution_functions_are_not_memoised", "the subtype test is not memoised process-wide"), ("C13.R13", "more", "combinators_keep_their_members", "Union / Intersection keep their members as given"), ("C13.R11", "c14", "r1_subtler_chain", "the type-valued key function's branches"), ("C13.R12", "c14", "r7", "every parameter can be type-valued"), ("C13.R8", "c14", "r2", "one key function on every path"), ("C13.R9", "c14", "r4_positions", "key function chosen for the parameter's real position"), ("C13.R10", "c15", "r2_normaliser_front", "string annotations are evaluated first and then normalised")],
     "C14": [("C14.R11", "more", "resolution_functions_are_not_memoised", "resolution functions and key functions are not memoised process-wide"), ("C14.R10", "more", "build_state_read_after_ensuring_the_build", "build state is read after the build was ensured"), ("C14.R9", "c15", "r2_normaliser_front", "string annotations are evaluated first and then normalised")],
     "C15": [("C15.R11", "more", "equality_tells_lookalikes_apart", "type equality tells look-alike constituents apart (interpreted)"), ("C15.R9", "more", "literal_bound_covers_every_value", "a Literal's bound covers the types of all its values (interpreted)"), ("C15.R7", "more", "annotations_pass_the_normaliser", "every annotation read passes the normaliser"), ("C15.R8", "c12", "r4_tables", "decision tables of the Order-valued code (union order is member-order free)")],
     "C18": [("C18.R9", "c19", "r4_whole_value_stores", "cache fills are whole-value stores (no half-written entry survives a failure)"), ("C18.R10", "c05", "r3_rebuild_from_nothing", "every build starts from a new table"), ("C18.R8", "more", "rebuild_is_the_mutators_last_effect", "a mutator has made all its changes before it starts the rebuild"), ("C18.R7", "more", "removal_is_exhaustive", "unregistering removes every signature of the function")],
-    "C17": [("C17.R12", "more", "recompiled_function_keeps_its_cells", "a re-compiled method keeps its free variables and cells, __class__ included (re-compiler executed abstractly)"), ("C17.R10", "more", "internal_conversions_are_fresh", "the package converts plain functions to fresh function objects"), ("C17.R9", "more", "recompiler_globals_are_unique", "globals planted for one function object carry its serial number"), ("C17.R8", "more", "entry_point_replaced_only_on_unnamed_or_fresh", "the entry point is replaced only on unnamed or fresh function objects")],
-    "C19": [("C19.R12", "more", "type_hooks_keep_no_state", "the type hooks of the package's own types store nothing on the type object"), ("C19.R10", "more", "no_shared_mutable_defaults_written", "mutable default arguments are never written"), ("C19.R11", "c19", "r11_resolution_completes_whatever_is_cached", "a resolution installs its whole chain whatever is already cached"), ("C19.R9", "c07", "r3", "the continuation branch resolves the bare key first and consults what it stored")],
+    "C17": [("C17.R13", "more", "serial_counters_are_never_reset", "serial-number counters are never reset"), ("C17.R12", "more", "recompiled_function_keeps_its_cells", "a re-compiled method keeps its free variables and cells, __class__ included (re-compiler executed abstractly)"), ("C17.R10", "more", "internal_conversions_are_fresh", "the package converts plain functions to fresh function objects"), ("C17.R9", "more", "recompiler_globals_are_unique", "globals planted for one function object carry its serial number"), ("C17.R8", "more", "entry_point_replaced_only_on_unnamed_or_fresh", "the entry point is replaced only on unnamed or fresh function objects")],
+    "C19": [("C19.R14", "more", "serial_counters_are_never_reset", "serial-number counters are never reset"), ("C19.R12", "more", "type_hooks_keep_no_state", "the type hooks of the package's own types store nothing on the type object"), ("C19.R10", "more", "no_shared_mutable_defaults_written", "mutable default arguments are never written"), ("C19.R11", "c19", "r11_resolution_completes_whatever_is_cached", "a resolution installs its whole chain whatever is already cached"), ("C19.R9", "c07", "r3", "the continuation branch resolves the bare key first and consults what it stored")],
     "C05": [("C05.R6", "more", "rebuild_depends_on_the_built_flag_only", "the rebuild after a change depends on the built flag only"), ("C05.R5", "c18", "r4_flag_never_unset", "the built flag is not lowered while the generated entry point stays live")],
-    "C20": [("C20.R11", "c05", "r2", "every change reaches every dependent (and only changes do)"), ("C20.R10", "c19", "r4_whole_value_stores", "the lookup path never discards or rewrites cached entries"), ("C20.R9", "c20", "r9_dependent_dispatcher_tests_values_only", "the dependent dispatcher does not re-test plain classes"), ("C20.R7", "c07", "r3", "the continuation branch reads the cached bare key"), ("C20.R8", "c07", "r5_next_keys_like_call_next", "next() keys like the entry point")],
+    "C20": [("C20.R12", "more", "only_changes_rebuild", "only changes of the method set rebuild the table"), ("C20.R11", "c05", "r2", "every change reaches every dependent (and only changes do)"), ("C20.R10", "c19", "r4_whole_value_stores", "the lookup path never discards or rewrites cached entries"), ("C20.R9", "c20", "r9_dependent_dispatcher_tests_values_only", "the dependent dispatcher does not re-test plain classes"), ("C20.R7", "c07", "r3", "the continuation branch reads the cached bare key"), ("C20.R8", "c07", "r5_next_keys_like_call_next", "next() keys like the entry point")],
 }
 
 
